@@ -50,7 +50,8 @@ TEXT = {'design_ref': 'DESIGN.md section 3, C07',
           'serializer_ops_pinned / cmp_op_document_shape against the extracted serializer strings. '
           'Character level (Props/C07Render.lean): parse_render_logical (S) - every rendering (any alias per '
           'operator occurrence, any layout; a space mandatory only between an atom and the next combining '
-          'operator) of every logical skeleton over GoodAtom atoms is read by LogicalExpr::lex_with to the '
+          'operator; the word `not` glued to its operand only where glueOk env holds, i.e. unless the glued text '
+          'spells a registered name, which LogicalExpr::lex_unary_op reads as that identifier) of every logical skeleton over GoodAtom atoms is read by LogicalExpr::lex_with to the '
           'declarative meaning canon(sk); alias_layout_invariance(_level, same_outcome) - two renderings of the '
           'same skeleton give the same AST, JSON document, JSON text and FNV hash; parse_render_filter; '
           'precedence_whole_filter; concrete instance with three spellings of one filter.',
